@@ -368,7 +368,7 @@ def main(tier):
     rep = Report("C03", tier, "model_checking")
     quick = tier == "quick"
     variant = "ossl-asan" if quick else "ossl-plain"
-    deadline = time.time() + (600 if quick else 1500)
+    deadline = time.time() + (1200 if quick else 1500)
     runs = []
     cfgs = [("session/login machine, fixed PINs, <=3 sessions (2 on A, 1 on B)", dict(maxs=3, max_a=2, max_b=1), 40),
             ("PIN machine (InitPIN/SetPIN/InitToken), <=2 sessions on A", dict(maxs=2, max_a=2, max_b=0, pins=True, tokens=("A",)), 40)] if quick else \
